@@ -87,6 +87,18 @@ example : judge true [.hello true true, .connect true] = some (.api .invalidAuth
 example : judge false [.hello false false] = some (.api .base) := by decide   -- the version error comes first
 example : nameOk (some [100, 101, 118]) [] = true ∧ nameOk (some [100]) [101] = false ∧ nameOk none [101] = true := by decide
 
+/-- `c06_reject_closes` does not ask for an open connection: a device that hangs up in the very turn of its rejecting answer
+(EOF or reset before the connect task resumes; the fatal cause on record is then "socket closed") still gets the specific
+error out of `finish_connection`, and no stop callback -/
+example :
+    let pre : List Ev := [.callStart, .resolved true, .wakeStart, .sockDone true, .wakeStart, .cbStart, .callFinish, .connMade, .wakeFinish]
+    let answer : Ev := .data [.hresp (.hello true true), .hresp (.connect true)]
+    let s1 := run { login := true } (pre ++ [answer, .eof, .wakeFinish])
+    let s2 := run { login := true } (pre ++ [answer, .reset, .lost, .wakeFinish])
+    (run { login := true } (pre ++ [answer, .eof])).fatal = some (.api .socketClosed) ∧
+    s1.finish = .done (.err .invalidAuth) ∧ s1.st = .closed ∧ s1.stops = [] ∧
+    s2.finish = .done (.err .invalidAuth) ∧ s2.st = .closed ∧ s2.stops = [] := by decide +kernel
+
 /-- **C06 (sessions, plaintext and noise).**  Connecting is accepted iff the major version is supported, every name the device
 gave matches an expected name (the noise ServerHello name when announced — even an empty one; the HelloResponse name when
 non-empty), and — with login — the password was not flagged. -/
